@@ -100,6 +100,69 @@ def _path_chain(prog, cg, eff, chk, W1, entry, rewriters, label):
                               inst, _short(caller.qualname), ', '.join(vf.shape(a)[:50] for a in args)))
 
 
+def padded_fields(prog, chk, W12):
+    n = 0
+    for f in sorted(prog.functions.values(), key=lambda x: (x.file or '', x.line)):
+        if f.body is None or f.is_pattern or 'v1/engine_track_impl' not in (f.file or ''):
+            continue
+        streams = {d['id'] for d in walk(f.body) if d.get('kind') == 'VarDecl' and 'ostringstream' in (d.get('type') or '')}
+        if not streams:
+            continue
+        # insertions in evaluation order: a chain `oss << a << b` is a left-nested operator<< tree
+        def chain(n_):
+            n_ = strip(n_)
+            if n_.get('kind') == 'CXXOperatorCallExpr' and \
+                    (strip(children(n_)[0]).get('referencedDecl') or {}).get('name') == 'operator<<' and len(children(n_)) == 3:
+                base, items = chain(children(n_)[1])
+                return base, items + [children(n_)[2]]
+            if n_.get('kind') == 'CXXMemberCallExpr' and strip(children(n_)[0]).get('name') == 'operator<<':
+                callee = strip(children(n_)[0])
+                base, items = chain(children(callee)[0])
+                return base, items + children(n_)[1:]
+            return n_, []
+        per_stream = {}
+        seen_nodes = set()
+        for x in walk(f.body):
+            if id(x) in seen_nodes:
+                continue
+            base, items = chain(x)
+            if not items or base.get('kind') != 'DeclRefExpr' or (base.get('referencedDecl') or {}).get('id') not in streams:
+                continue
+            for y in walk(x):
+                seen_nodes.add(id(y))
+            per_stream.setdefault(base['referencedDecl']['id'], []).extend(items)
+        for sid, items in per_stream.items():
+            texts = [strip(i_, explicit=True) for i_ in items]
+            if not any(t.get('kind') == 'StringLiteral' and ':' in (t.get('value') or '') for t in texts):
+                continue        # not a MM:SS string
+            width_pending = False
+            for t, raw in zip(texts, items):
+                ty = (t.get('type') or '')
+                is_manip = t.get('kind') == 'CallExpr' and \
+                    (strip(children(t)[0]).get('referencedDecl') or {}).get('name') in ('setw', 'setfill')
+                if is_manip:
+                    if (strip(children(t)[0]).get('referencedDecl') or {}).get('name') == 'setw':
+                        width_pending = True
+                    continue
+                if t.get('kind') == 'StringLiteral' or 'char' in ty:
+                    width_pending = False       # a literal consumes the width as well
+                    continue
+                if any(k_ in ty for k_ in ('long', 'int')):
+                    n += 1
+                    chk.analysed(f)
+                    inst = '%s: number inserted into the MM:SS stream at %s' % (
+                        f.qualname.replace('djinterop::engine::', ''), locstr(raw))
+                    if width_pending:
+                        chk.ok(W12, inst + ' has its own setw', locstr(raw))
+                    else:
+                        chk.violation(W12, '%s|unpadded number in MM:SS' % f.qualname.replace('djinterop::engine::', ''),
+                                      locstr(raw), inst + ' has no setw of its own: 65 s is written "01:5" where the other '
+                                      'writer of the same meta-data row writes "01:05"')
+                    width_pending = False
+    if n < 4:
+        raise AnalysisBroken('W12: fewer than four numbers inserted into MM:SS streams found (%d)' % n)
+
+
 def forest_encodings(prog, cg, eff, chk, W1, only=None, paths=True):
     # ---- W1 ------------------------------------------------------------------------------
     ops = [
@@ -430,5 +493,10 @@ def run(tier='quick'):
         else:
             chk.violation(W6, 'v2::crate_impl::add_track|databaseUuid source', ws[0].loc,
                           inst + ', expected Information.uuid: the entity would point into another database')
+    W12 = chk.rule('W12', 'the MM:SS duration string (MetaData type 10, derived from Track.length) is formed the same way by '
+                          'every writer: each number inserted into the stream has its own setw / setfill before it (setw '
+                          'holds for one insertion only, so a single one at the start pads the minutes and not the seconds)',
+                   floor=4)
+    padded_fields(prog, chk, W12)
     return chk.finish('statement sites of the 1.x crate operations with resolved binds (roles), field model of '
                       'the track path per schema range, parsed triggers of every 2.x DDL, value flow of add_track')
